@@ -237,7 +237,7 @@ CHECKS = {
              'all consumers ended), C17_one_marker_left / C17_renew_clean / C17_renew_enabled (exactly one marker at round end; '
              'renew never raises and yields a fresh round with zero leftovers), C17_all_finish (progress + measure once all '
              'suppliers ended), C17_stop_responsive (a blocked get/put raises StopRequested within one wait interval of the later '
-             'of stop request and operation start), C17_timed_call_responsive (the same for a call with its own timeout, any length) hold for every action list of the model: all m,n>=1, queue bounds, rounds, '
+             'of stop request and operation start), C17_timed_call_responsive (the same for a call with its own timeout, any length), C17_late_consumer (a consumer starting after the round is over leaves queue and tokens untouched) hold for every action list of the model: all m,n>=1, queue bounds, rounds, '
              'stop moments, interleavings. Tie: the real IterableQueue runs with real threads under the deterministic scheduler; '
              'every queue/token operation is logged at its linearisation point and the trace is validated against the model by '
              'the Lean driver (validator soundness proved); token-queue sizes and queue contents are compared at every quiescent '
